@@ -1,5 +1,5 @@
-"""Per-property registry used by ./check: which Lean module holds the theorems, which harness
-suites are run, and what the evidence file says about the trusted base."""
+"""Per-property registry used by ./check and by gen_manifest.py: which Lean module holds the
+theorems, which harness suites are run, and what the evidence/manifest say."""
 
 ALLOWED_AXIOMS = ["propext", "Classical.choice", "Quot.sound"]
 
@@ -13,11 +13,42 @@ TRUSTED_BASE = [
 SUITE_MODEL_DEPS = {}
 
 PROPS = {
+    "C01": {
+        "title": "Every algorithm emits a sound, gap-free, index-exact edit script",
+        "module": "SimilarVerif.Props.C01",
+        "suites": ["raw"],
+        "rule": "raw: all sequence pairs up to length 4 (thorough 5) over 3 symbols x 3 algorithms, all sub-range pairs of pairs up to length 3 (thorough 4) with slice and offset lookups, plus structured random pairs (7 families); non-trivial = at least one change and one equal item; distinct by request hash",
+        "theorem_status": "LCS: total and valid for every clock (full). Myers: valid if it returns, for every clock, relative to SnakeInBox (split point inside the box; Myers' theory pending). Patience: correspondence only so far. Corollaries replay/coverage for every valid stream.",
+        "level_text": "Lean theorems: LCS total+valid (all inputs, ranges, clocks); Myers partial correctness relative to the explicit hypothesis SnakeInBox; replay and coverage corollaries. Exact call traces, comparison and probe counts of all three algorithms are compared with the model on exhaustive small scopes and random inputs, and an independent strict walker validates the implementation's streams.",
+        "level_note": "Myers/Patience totality and the in-box fact are hypotheses (named Props, not axioms); the model is tied to the code by differential testing only; release-build wrap-around of usize is modelled as a panic (checked build)",
+        "assumptions": ["Myers theorems assume SnakeInBox E (explicit hypothesis)", "usize arithmetic modelled on Nat; overflow out of scope"],
+    },
+    "C10": {
+        "title": "Compact and Replace preserve meaning and cost of any valid script",
+        "module": "SimilarVerif.Props.C10",
+        "suites": ["script"],
+        "rule": "script: every valid raw script (exact carried indices, split runs, insert-before-delete) over all pairs up to length 3 (thorough 4) over 2 symbols, plus random longer scripts with heavy repetition, through Replace, Compact, Compact+Replace, with the swap-repair switch off and on; non-trivial = script has a change and >= 2 calls",
+        "theorem_status": "Replace half full (all valid scripts). Compact half: proof in progress, covered by correspondence + validators.",
+        "level_text": "Lean theorem for Replace over any valid script (validity, item counts, alternation, exactness, finish once, world untouched); Compact model compared with the code on all valid scripts of a small scope and validated by an independent walker/normal-form checker.",
+        "level_note": "Compact clauses not yet proved; termination of the clean-up loops is not proved (the model aborts with `fuel`, which the correspondence would expose)",
+    },
+    "C12": {
+        "title": "Grouping keeps every change once, in order, with exactly n items of context",
+        "module": "SimilarVerif.Props.C12",
+        "suites": ["group"],
+        "rule": "group: all alternating op lists with <= 2 (thorough 3) changes of the three kinds, equal-run lengths 1..2n+2, optional leading/trailing equal run, n <= 2 (thorough 4), plus random lists with run lengths around the 2n threshold; non-trivial = at least two groups",
+        "theorem_status": "full: changes kept once in order, contiguity, no all-equal group, context = min(n, available) from the adjacent end, interior runs whole and <= 2n, separation iff > 2n",
+        "level_text": "Lean theorems about the model of group_diff_ops for all op lists and radii; model compared with the code exhaustively on a small scope; direct re-statement validator on the implementation.",
+        "level_note": "clauses about all-equal groups need `AltOps` (no adjacent Equal ops), which is the form of captured diffs (C09); counterexample without it is recorded in the Props file",
+    },
     "C13": {
+        "title": "Expanding ops into changes and slices is faithful",
         "module": "SimilarVerif.Props.C13",
         "suites": ["changes"],
         "rule": "changes: every op of the four kinds with offsets/lengths 0..L (quick L=5, thorough L=8) over sequences of distinct values, exhaustive; non-trivial = expands to >= 2 changes; distinct by request hash",
         "theorem_status": "full: per-op expansion, slice expansion, whole-diff iteration and apply_to_hook are proved for all ops",
+        "level_text": "Lean theorems for all ops: ChangesIter/AllChangesIter state machines drained = the specified lists; slices cover the same items; apply_to_hook reproduces the op. Model tied to the code by exhaustive small-scope differential testing of iter_changes/iter_slices.",
+        "level_note": "trusted: Lean kernel; hand-written model of src/iter.rs checked against the code by the correspondence harness only on the explored ops",
         "assumptions": ["the lookups are only read through Index at the reported index (a Change in the model records that index instead of the value)"],
     },
 }
